@@ -119,15 +119,16 @@ Section Side.
     rewrite flat_map_app, IH. reflexivity.
   Qed.
 
-  Lemma header_items_hs bm hs b :
-    is_header b = false -> bm_exts bm = hs ++ [b] ->
-    header_items te d bm = flat_map (fun p => olist (direct_part_item te true p)) (flat_map (hdr_parts bm) hs).
+  Lemma header_items_hs bm hs1 hs2 use ns parts :
+    bm_exts bm = hs1 ++ SoapBody use ns parts :: hs2 ->
+    header_items te d bm = flat_map (fun p => olist (direct_part_item te true p)) (flat_map (hdr_parts bm) (hs1 ++ hs2)).
   Proof.
-    intros Hb E. unfold header_items. rewrite E, flat_map_app. cbn [flat_map].
-    destruct b as [? ? ?|? ? ?]; [|discriminate]. rewrite !app_nil_r.
-    rewrite flat_map_flat_map. apply flat_map_ext_in. intros e _.
-    destruct e as [? ? ?|msg prt u]; cbn [hdr_parts]; [reflexivity|].
-    destruct (find_message d (bm_ns bm) msg); reflexivity.
+    intros E. unfold header_items. rewrite E.
+    change (hs1 ++ SoapBody use ns parts :: hs2) with (hs1 ++ [SoapBody use ns parts] ++ hs2).
+    rewrite !flat_map_app. cbn [flat_map app].
+    rewrite !flat_map_flat_map. f_equal; apply flat_map_ext_in; intros e _;
+      (destruct e as [? ? ?|msg prt u]; cbn [hdr_parts]; [reflexivity|];
+       destruct (find_message d (bm_ns bm) msg); reflexivity).
   Qed.
 
   (* ---- soap:body, document style *)
